@@ -82,7 +82,7 @@ func genC05Core(c *Ctx) {
 	for i := range gs {
 		gs[i] = genGCoreJournal(c, c.R)
 	}
-	texts := leanPrint(gs)
+	texts := leanPrint(gs, nil)
 	for i, g := range gs {
 		c.Emit("c05.gcore", c05CoreCase(g, texts[i], genGCoreOptions(c, c.R)))
 	}
